@@ -4,8 +4,10 @@
 package demo
 
 import (
+	"regexp"
 	"strings"
 	"sync"
+	"sync/atomic"
 	"testing"
 
 	"github.com/coregx/coregex"
@@ -56,13 +58,44 @@ func TestRaceFamilies(t *testing.T) {
 	}
 }
 
-// The lazy DFA asks its shared d.pikevm whether an empty match exists at the end of the haystack
-// (matchesEmptyAt, added by fix 6e116d7 next to matchesEmpty, which does the same for the empty haystack).
-// FindAll resumes at len(haystack) behind a match that ends there.
+// Before fix 84a4feb the lazy DFA asked its shared d.pikevm whether an empty match exists at the end of the
+// haystack (matchesEmptyAt, added by fix 6e116d7 next to matchesEmpty): FindAll resumes at len(haystack) behind a
+// match that ends there, and go test -race reported lazy.(*DFA).matchesEmptyAt. It now uses the caller's cache.
 func TestRaceLazyDFAAtEnd(t *testing.T) {
-	for _, pat := range []string{`[a-c]+\d{2,}z|q+w`, `\d+[a-z]+\d+`, `[ab]+c[de]+f\d`, `[a-z]+\d+[a-z]+\d`} {
+	for _, pat := range []string{`[a-c]+\d{2,}z|q+w`, `[ab]+c[de]+f\d`} {
 		hammer(t, pat, []string{"x abc12z", "qqw", "12ab34", "bcef2", "ab1cd2"}, func(re *coregex.Regex, s string) {
 			re.FindAllStringIndex(s, -1)
 		})
+	}
+}
+
+// Wrong answers, not only reported races (round-9 agent's report, confirmed): before fix d8eeb09 the DFA
+// strategies ran the engine's shared e.pikevm, so concurrent FindStringIndex calls mixed their thread queues.
+// Run without -race: it compares every answer with regexp's.
+func TestConcurrentFindSpans(t *testing.T) {
+	long := strings.Repeat("ab1 cd22 ", 60)
+	for _, pat := range []string{`(foo|bar)\d+?x[a-c]+[d-f]+`, `(?:foo|bar)\w+?\d[a-z]+\d`} {
+		re := coregex.MustCompile(pat)
+		std := regexp.MustCompile(pat)
+		inputs := []string{long + "foo12xabcdef " + long, "bar9xad", long + long + "fooz1abc2", long}
+		var bad atomic.Int64
+		var wg sync.WaitGroup
+		for g := 0; g < 8; g++ {
+			wg.Add(1)
+			go func(g int) {
+				defer wg.Done()
+				for i := 0; i < 400; i++ {
+					s := inputs[(g+i)%len(inputs)]
+					got, want := re.FindStringIndex(s), std.FindStringIndex(s)
+					if len(got) != len(want) || (len(got) == 2 && (got[0] != want[0] || got[1] != want[1])) {
+						bad.Add(1)
+					}
+				}
+			}(g)
+		}
+		wg.Wait()
+		if n := bad.Load(); n > 0 {
+			t.Errorf("%s: %d wrong spans under concurrent use", pat, n)
+		}
 	}
 }
